@@ -21,6 +21,7 @@ class Gen:
     self.consts = []     # (name, kind)
     self.funcs = []      # (name, nparams, annotated)
     self.classes = []    # (name, attrs, methods)
+    self.nested = []     # dotted names of nested classes, e.g. "C1.N4"
     self.n = 0
 
   def fresh(self, prefix):
@@ -65,6 +66,8 @@ class Gen:
     if x < 0.88 and self.funcs:
       f, n, _ = r.choice(self.funcs)
       return "%s(%s)" % (f, ", ".join(self.expr(depth + 1) for _ in range(n)))
+    if x < 0.905 and self.nested:
+      return "%s()" % r.choice(self.nested)
     if x < 0.92 and self.classes:
       return "%s()" % r.choice(self.classes)[0]
     if x < 0.96:
@@ -213,15 +216,35 @@ class Gen:
         else:
           self.emit("    return %s" % self.expr(1))
         methods.append((m, "inst"))
-    if r.random() < 0.15:
+    new_nested = None
+    if r.random() < 0.25:
       inner = self.fresh("N")
       self.emit("  class %s:" % inner)
       self.emit("    v = %s" % self.scalar())
+      if r.random() < 0.5:
+        self.emit("    def w(self):")
+        self.emit("      return %s" % self.scalar())
       attrs.append(inner)
+      new_nested = "%s.%s" % (name, inner)
     if not attrs and not methods:
       self.emit("  pass")
     self.emit()
     self.classes.append((name, attrs, methods))
+    if new_nested:
+      self.nested.append(new_nested)
+      # values typed with the nested class: a constant, a container, a function
+      k = r.random()
+      if k < 0.5:
+        c = self.fresh("K")
+        self.emit("%s = %s()" % (c, new_nested))
+        self.consts.append((c, "const"))
+      if k > 0.3:
+        f = self.fresh("f")
+        self.emit("def %s():" % f)
+        self.emit("  return %s" % r.choice(["%s()" % new_nested, "[%s()]" % new_nested,
+                                            "{'k': %s()}" % new_nested]))
+        self.emit()
+        self.funcs.append((f, 0, False))
 
   def gen_error(self):
     """Statements that pytype reports on (ordering / dedup material)."""
